@@ -665,6 +665,10 @@ class ValueMapping:
             raise ValueError(
                 _format("The value-mapped {0} has no Values qualifier "
                         "defined", vm._element_str()))
+        if values_qual.value is None:
+            raise ModelError(
+                _format("The value-mapped {0} has a Values qualifier with "
+                        "a NULL value", vm._element_str()))
         values_list = list(values_qual.value)  # may be modified
 
         valuemap_qual = element_obj.qualifiers.get('ValueMap', None)
@@ -673,6 +677,11 @@ class ValueMapping:
             valuemap_list = [f"{v}" for v in range(0, len(values_list))]
         else:
             valuemap_list = valuemap_qual.value
+            if valuemap_list is None or None in valuemap_list:
+                raise ModelError(
+                    _format("The value-mapped {0} has a ValueMap qualifier "
+                            "with a NULL value or NULL array item: {1!A}",
+                            vm._element_str(), valuemap_list))
 
         # Verify and adjust the valuemap and values arrays
         values_size = len(values_list)
